@@ -356,6 +356,28 @@ fn emph_soup(rng: &mut Rng) -> String {
     s
 }
 
+/// letter, run, (letter | space letter), run, ...: every combination of flanking (closer-only, opener-only, both) and
+/// length class mod 3 in one paragraph, so that a FAILED closer of one class precedes a closer of another class that
+/// should still find an earlier opener (the openers-bottom table has one slot per class)
+fn emph_bottoms(rng: &mut Rng) -> String {
+    let m = if rng.chance(4, 5) { "*" } else { "_" };
+    let mut s = String::from(*rng.pick(&["a", "", "a "]));
+    for _ in 0..rng.range(3, 6) {
+        s.push_str(&m.repeat(rng.range(1, 7)));
+        s.push_str(*rng.pick(&["b", " c", "d ", "e", " "]));
+    }
+    s
+}
+
+/// the same, enumerated: three runs of lengths (a, b, c) in 1..=6, each followed by a letter or by space + letter
+/// (216 x 8 = 1728 documents; the stream walks through them with a counter, a quick run covers all of them)
+fn emph_bottoms_enum(idx: usize, m: &str) -> String {
+    let (a, b, c) = (idx % 6 + 1, idx / 6 % 6 + 1, idx / 36 % 6 + 1);
+    let f = idx / 216 % 8;
+    let sep = |bit: usize, l: &str| if f >> bit & 1 == 1 { format!(" {}", l) } else { l.to_string() };
+    format!("a{}{}{}{}{}{}", m.repeat(a), sep(0, "b"), m.repeat(b), sep(1, "c"), m.repeat(c), sep(2, "d"))
+}
+
 fn nested_brackets(rng: &mut Rng) -> String {
     fn go(rng: &mut Rng, depth: usize, s: &mut String) {
         let n = rng.range(1, 3);
@@ -505,6 +527,7 @@ pub fn run(n: usize, rng: &mut Rng, out: &mut Out) {
         for (c, m) in roots { spec_roots.push((c, m, refs.clone())); }
     }
     let mut spec_i = 0;
+    let mut bottoms_idx = 0usize;
 
     for i in 0..n {
         let ci = if rng.chance(1, 2) { rng.below(2) } else { rng.below(confs.len()) };
@@ -523,8 +546,11 @@ pub fn run(n: usize, rng: &mut Rng, out: &mut Out) {
                 let conf = if !small.is_empty() && rng.chance(3, 4) { *rng.pick(&small) } else { conf };
                 emit_parse(out, conf, &c, &[(0, 0)], &random_refs(rng), "parse:emph-forest");
             } else if rng.chance(1, 2) {
-                let c = emph_soup(rng);
-                emit_parse(out, conf, &c, &[(0, 0)], &random_refs(rng), "parse:emph-soup");
+                if rng.chance(1, 3) { let c = emph_soup(rng); emit_parse(out, conf, &c, &[(0, 0)], &random_refs(rng), "parse:emph-soup"); }
+                else {
+                    for _ in 0..2 { let c = emph_bottoms(rng); emit_parse(out, conf, &c, &[(0, 0)], &None, "parse:emph-bottoms"); }
+                    for _ in 0..40 { let c = emph_bottoms_enum(bottoms_idx, if bottoms_idx / 1728 % 4 == 3 { "_" } else { "*" }); bottoms_idx += 1; emit_parse(out, &confs[0], &c, &[(0, 0)], &None, "parse:emph-bottoms-enum"); }
+                }
             } else {
                 let c = doc::sig_string(rng, 30);
                 emit_parse(out, conf, &c, &[(0, 0)], &random_refs(rng), "parse:gen-sig-string");
